@@ -24,12 +24,41 @@ import ast
 from sa import facts
 from sa.cfg import cfg_of
 from sa.effects import Effects
-from sa.flow import Expander, flow_of
+from sa.flow import Expander as _EngineExpander, flow_of
 from sa.model import src, walk_no_nested, unmangle
 from sa.pat import match, same
 from sa.types import base
 import re
 from . import taskrules as T
+
+
+class Expander(_EngineExpander):
+    """the engine's Expander with constant conditional expressions folded (`A if False else B` -> B): what is left of a merged
+    helper after the normaliser spliced it with a constant switch"""
+
+    def expand(self, expr, at=None, *a, **k):
+        out = T.fold_const(super().expand(expr, at, *a, **k))
+        at = at if at is not None else self.flow.node_of_expr(expr)
+        if at is None or out is None:
+            return out
+        # a local that stands for ONE object chosen by such a folded switch (`mirror = v.__x if False else v.__y`) and is then changed
+        # in place: the engine keeps "mutated" names opaque unless their definition is a plain attribute path - after folding it is
+        sub = {}
+        for n in ast.walk(out):
+            if isinstance(n, ast.Name) and isinstance(getattr(n, 'ctx', None), ast.Load) and n.id in self._mutated_names() and n.id not in sub:
+                d = self.flow.unique_def(n.id, at)
+                if d is not None and d.kind == 'assign' and d.value is not None and d.node is not None and d.node is not at and \
+                        isinstance(d.value, ast.IfExp):
+                    v = T.fold_const(super().expand(d.value, d.node))
+                    b = v
+                    while isinstance(b, ast.Attribute):
+                        b = b.value
+                    if isinstance(v, ast.Attribute) and isinstance(b, ast.Name):
+                        sub[n.id] = v
+        if sub:
+            from sa.flow import subst
+            out = subst(out, sub)
+        return out
 from .taskrules import guard_facts, relation_write_nodes, Roles, SETTERS, REL_FIELDS, WBS_FIELD
 
 MUTATORS = [
@@ -313,6 +342,10 @@ def exempt(ctx, f, eff, w, r):
             return "facade read"
     if f.qual == SETTERS['children'] and rkind == 'call' and rcallee is not None and rcallee.qual == SETTERS['parent']:
         return "E1 every guard of the parent setter is established before the first write (obligation children_prevalidated)"
+    if rkind == 'call' and rcallee is not None and rcallee.name == 'remove' and rcallee.cls in ('_PredecessorsList', '_SuccessorsList',
+                                                                                                '_ChildrenList', '_TaskList') and \
+            isinstance(rnode, ast.Call) and len(rnode.args) == 1 and isinstance(rnode.args[0], ast.Name) and rnode.args[0].id == f.self_name:
+        return "E3 <list>.remove(self) cannot be rejected (the only rejection is a None argument)"
     if rkind == 'call' and rcallee is not None and rcallee.qual == SETTERS['children'] and f.qual != SETTERS['children']:
         v = _assigned_value(f, rnode)
         tgt = rnode if isinstance(rnode, ast.Attribute) else None
@@ -396,7 +429,15 @@ def _is_reroot(ctx, f, node) -> bool:
 # ======================================================================================================================
 def cannot_reject(ctx, o, eff):
     prog = ctx.prog
-    f = prog.func('task._ChildrenList.remove')
+    f0 = prog.funcs.get('task._ChildrenList.remove') or prog.find_method('_ChildrenList', 'remove') or prog.func('task._ChildrenList.remove')
+    # template method: remove() of a base class doing the shared checks and delegating the removal itself to a hook of _ChildrenList
+    cand = [f0]
+    for c in [n for n in walk_no_nested(f0.node) if isinstance(n, ast.Call) and isinstance(n.func, ast.Attribute) and
+              isinstance(n.func.value, ast.Name) and n.func.value.id == f0.self_name]:
+        h_ = prog.find_method('_ChildrenList', unmangle(c.func.attr))
+        if h_ is not None and not any(h_ is x for x in cand):
+            cand.append(h_)
+    f = next((g for g in cand if any(True for _ in facts.attr_stores(g, 'children'))), f0)
     ok = False
     exf = Expander(prog, f, ctx.typer, inline=True)
     for st, tgt, val in facts.attr_stores(f, 'children'):
@@ -510,6 +551,7 @@ def prevalidated(ctx, o, eff):
     caller = prog.func(SETTERS['children'])
     from .c05 import _reaches_under
     writes = relation_write_nodes(ctx, caller, eff)
+    callee_locals = {d.var for d in flow_of(callee).defs if d.kind not in ('param', 'entry') and '.' not in d.var}
     for g in T.guard_formulas(ctx, callee):
         if g.exc != 'RuntimeError':
             o.refute(callee, g.node, g.node, f"the parent setter rejects with {g.exc}")
@@ -545,7 +587,14 @@ def prevalidated(ctx, o, eff):
                     return True
             return False
         other_args = [a for a in ccalls if a.split('(', 1)[0] in rcalls and a not in T.atoms_of(R) and extends(a)]
-        if cap.refuted and not cap.sites and other_args and all('is missing' in str(a[3]) for a, k in cap.refuted if len(a) > 3):
+        foreign_names = sorted({nm for a in T.atoms_of(R) for nm in re.findall(r"[A-Za-z_]\w*", re.sub(r"^[a-z:]+\(|^opaque:|call:\w+", " ", a))
+                                if nm not in ('self', 'arg', 'elem', 'in', 'not', 'is', 'None', 'id', 'all_children', 'all_parents',
+                                              'all_predecessors', 'all_successors', 'parent', 'children', 'wbs', 'predecessors', 'successors')
+                                and not nm.startswith('_') and nm in callee_locals})
+        if cap.refuted and not cap.sites and foreign_names:
+            o.undecided(caller, caller.node, label, f"[{label}]: the parent setter's check runs over its own local(s) {', '.join(foreign_names[:3])} "
+                                                    f"(a walk), which cannot be restated for the children setter")
+        elif cap.refuted and not cap.sites and other_args and all('is missing' in str(a[3]) for a, k in cap.refuted if len(a) > 3):
             o.undecided(caller, caller.node, label, f"[{label}]: the children setter calls the same predicate with a list argument extended by concatenation "
                                                     f"(`{other_args[0][5:][:70]}`); whether that implies the parent setter's check is not decided")
         else:
@@ -662,6 +711,21 @@ def _duplicate_id_check(ctx, h):
                         any('intersection' in src(z) or (isinstance(z, ast.BinOp) and isinstance(z.op, ast.BitAnd)) for z in lens)
                     if not understood:
                         return None, h.node, f"counting argument `{src(n)[:80]}` not understood: it may cover equal ids inside the argument"
+    # running set of taken ids:  S = <ids so far>; for t in NEW: if t.id in S: <answer true>; S.add(t.id)   - a later task with the id
+    # of an earlier new task hits the set, so equal ids inside the argument are noticed
+    for lp in [n for n in walk_no_nested(h.node) if isinstance(n, ast.For) and isinstance(n.target, ast.Name)]:
+        v = lp.target.id
+        adds = [st for st in lp.body if isinstance(st, ast.Expr) and match(f"$s.add({v}.id)", st.value)]
+        for st in lp.body:
+            if isinstance(st, ast.If) and adds and (m_ := match(f"{v}.id in $s", st.test)) and same(m_['s'], match(f"$s.add({v}.id)", adds[0].value)['s']):
+                rets = [n for n in ast.walk(st) if isinstance(n, ast.Return) and n.value is not None and
+                        not (isinstance(n.value, ast.Constant) and not n.value.value)]
+                flags = [n.targets[0].id for n in st.body if isinstance(n, ast.Assign) and len(n.targets) == 1 and
+                         isinstance(n.targets[0], ast.Name) and isinstance(n.value, ast.Constant) and n.value.value is True]
+                flag_returned = any(isinstance(n, ast.Return) and isinstance(n.value, ast.Name) and n.value.id in flags
+                                    for n in walk_no_nested(h.node))
+                if rets or flag_returned:
+                    return True, None, None
     mutated = [n for n in ast.walk(h.node) if isinstance(n, ast.Call) and isinstance(n.func, ast.Attribute) and
                n.func.attr in ('update', 'add', 'difference_update', 'intersection_update')]
     if mutated:
@@ -980,6 +1044,10 @@ def sort_rule(ctx, o):
                                   "values that cannot be compared, e.g. None) the children are left partially reordered")
     for st, val, inplace in T.list_replacements(f):
         found = True
+        if cfg.enclosing_fors(cfg.node_of(st)):
+            o.refute(f, st, st, "sort() writes the shared list back once per round of a loop (`" + src(st)[:50] + "`): when a later pass fails "
+                                "(TypeError on values that cannot be compared) the passes already written leave the children reordered")
+            continue
         vx = ex.expand(val, cfg.node_of(st))
         if isinstance(vx, ast.Call) and isinstance(vx.func, ast.Name) and vx.func.id == 'sorted' and vx.args:
             o.site(f, st, "the list is replaced by sorted(..) of it: a failing comparison leaves it untouched")
